@@ -148,7 +148,7 @@ DEntry(D, cap, m, k, v, w, res) ==
       Ins(val, ret) == IF full THEN Out(res, <<"panic">>, D, {k.kt}, {val.vt})
                        ELSE Out(res, ret, D \cup {DE(k, val)}, {}, {})
   IN
-  CASE m = "key" -> Out(res, IF occ THEN <<"occ">> \o DJKey(e) ELSE <<"vac", k.kt, k.c, k.r>>, D, {k.kt}, {})
+  CASE m = "key" -> Out(res, IF occ THEN <<"occk">> \o DJKey(e) ELSE <<"vack", k.kt, k.c, k.r>>, D, {k.kt}, {})
     [] m = "or_insert" ->
          IF occ THEN Out(res, <<"occ">> \o DJVal(e), D, {k.kt}, {v.vt})
          ELSE Ins(v, <<"vac", v.vt, v.v>>)
@@ -168,14 +168,14 @@ DEntry(D, cap, m, k, v, w, res) ==
          Out(res, <<"vac_skip">>, D, {k.kt}, vdead)
     [] m \in {"vac_key", "vac_into_key", "vac_insert"} /\ occ ->
          Out(res, <<"occ_skip">>, D, {k.kt}, vdead)
-    [] m = "occ_key"          -> Out(res, <<"occ">> \o DJKey(e), D, {k.kt}, {})
+    [] m = "occ_key"          -> Out(res, <<"occk">> \o DJKey(e), D, {k.kt}, {})
     [] m = "occ_get"          -> Out(res, <<"occ">> \o DJVal(e), D, {k.kt}, {})
     [] m \in {"occ_get_mut", "occ_into_mut"} -> Out(res, <<"occ">> \o DJVal(e), (D \ {e}) \cup {DWrite(e, w)}, {k.kt}, {})
     [] m = "occ_insert"       -> Out(res, <<"occ">> \o DJVal(e), (D \ {e}) \cup {DSetVal(e, v)}, {k.kt}, {})
     [] m = "occ_remove"       -> Out(res, <<"occ">> \o DJVal(e), D \ {e}, {k.kt, e.kt}, {})
     [] m = "occ_remove_entry" -> Out(res, <<"occ">> \o DJEnt(e), D \ {e}, {k.kt}, {})
-    [] m = "vac_key"          -> Out(res, <<"vac", k.kt, k.c, k.r>>, D, {k.kt}, {})
-    [] m = "vac_into_key"     -> Out(res, <<"vac", k.kt, k.c, k.r>>, D, {}, {})
+    [] m = "vac_key"          -> Out(res, <<"vack", k.kt, k.c, k.r>>, D, {k.kt}, {})
+    [] m = "vac_into_key"     -> Out(res, <<"vack", k.kt, k.c, k.r>>, D, {}, {})
     [] m = "vac_insert"       -> Ins(v, <<"vac", v.vt, v.v>>)
 
 \* ------------------------------------------------------ get_disjoint_mut --
